@@ -164,6 +164,7 @@ class _SD:
 
 def _sd(U, k):
     """subdomain_data objects are owned by the universe so that twin forms share them."""
+    U = getattr(U, "_U", U)
     tab = U.__dict__.setdefault("_c27_sds", {})
     if k not in tab:
         tab[k] = _SD(k)
@@ -179,6 +180,71 @@ def twin_expr(rng, U, shape, depth, profile):
     b = Gen(U, rng, **profile).expr(shape, depth)
     rng.setstate(st2)
     return a, b
+
+
+class _PerturbedUniverse:
+    """Proxy of a Universe whose n-th coef()/const() request returns the *other* object of the same kind."""
+
+    def __init__(self, U, n):
+        self.__dict__["_U"] = U
+        self.__dict__["_n"] = n
+        self.__dict__["_calls"] = 0
+        self.__dict__["hit"] = False
+
+    def __getattr__(self, name):
+        return getattr(self._U, name)
+
+    def _tick(self):
+        self.__dict__["_calls"] += 1
+        if self._calls == self._n:
+            self.__dict__["hit"] = True
+            return True
+        return False
+
+    def coef(self, name, k=0):
+        return self._U.coef(name, 1 - k if self._tick() else k)
+
+    def const(self, shape=(), k=0):
+        return self._U.const(shape, 1 - k if self._tick() else k)
+
+
+class _PerturbedGen(Gen):
+    """Gen whose n-th literal differs (same consumption of random numbers)."""
+
+    def __init__(self, U, rng, n, **kw):
+        Gen.__init__(self, U, rng, **kw)
+        self._n = n
+        self._lit = 0
+        self.hit = False
+
+    def literal(self):
+        v = Gen.literal(self)
+        self._lit += 1
+        if self._lit == self._n:
+            self.hit = True
+            return v + 1
+        return v
+
+
+def near_twin_expr(rng, U, shape, depth, profile):
+    """(a, b, perturbed): b is built like a, except for one terminal (coefficient / constant / literal)."""
+    st = rng.getstate()
+    a = Gen(U, rng, **profile).expr(shape, depth)
+    st2 = rng.getstate()
+    kind = rng.random() < 0.5
+    n = rng.choice([1, 1, 2, 3])
+    st3 = rng.getstate()
+    rng.setstate(st)
+    if kind:
+        P = _PerturbedUniverse(U, n)
+        b = Gen(P, rng, **profile).expr(shape, depth)
+        hit = P.hit
+    else:
+        g = _PerturbedGen(U, rng, n, **profile)
+        b = g.expr(shape, depth)
+        hit = g.hit
+    rng.setstate(st3)
+    return a, b, hit
 
 
 # ------------------------------------------------------------------ operations
@@ -761,6 +827,8 @@ def run_history(ctx, rng, S, mon, start_label, first=None):
                     ctx.count("cfd_with_integral_scaling")
             if name in ("Expr.__eq__", "Form.equals", "Form.__eq__", "Form.__ne__") and res is True and args[0] is not args[1]:
                 ctx.count("eq_true_distinct_objects")
+            if name in ("Expr.__eq__", "Form.equals", "Form.__eq__") and res is False and args[0] is not args[1]:
+                ctx.count("eq_false_distinct_objects")
             outs = [o for o in results_of(res) if isinstance(o, (Form, Expr))]
             if outs:
                 new = rng.choice(outs)
@@ -806,12 +874,27 @@ def history_form(ctx, i, rng):
         S.others.append(build_form(rng, U, Gen(U, rng, deriv=1, cplx=cplx), arity, {}, mds))
         rng.setstate(st)
         ctx.count("twin_forms_built")
-    elif r < 0.8:
+    elif r < 0.7:
+        # near twin: same construction except for one coefficient / constant
+        st = rng.getstate()
+        n = rng.choice([1, 2, 3, 4, 2])
+        st2 = rng.getstate()
+        rng.setstate(st0)
+        if n % 2:
+            P = _PerturbedUniverse(U, n)
+            S.others.append(build_form(rng, P, Gen(P, rng, deriv=1, cplx=cplx), arity, {}, mds))
+        else:
+            P = _PerturbedGen(U, rng, n // 2, deriv=1, cplx=cplx)
+            S.others.append(build_form(rng, U, P, arity, {}, mds))
+        rng.setstate(st2)
+        if P.hit:
+            ctx.count("near_twin_forms_built")
+    elif r < 0.85:
         S.others.append(build_form(rng, U, Gen(U, rng, deriv=1, cplx=cplx), arity, {}, mds))
     mon = Monitor(ctx, full=rng.random() < 0.6)
     start = canon(F, "abs")
     first = None
-    if r < 0.5 and rng.random() < 0.6:
+    if r < 0.7 and rng.random() < 0.6:
         k = rng.random()
         if k < 0.4:
             first = ("Form.equals", lambda a, b: a.equals(b), (F, S.others[-1]), {}, None)
@@ -851,8 +934,13 @@ def history_expr(ctx, i, rng):
     profile = dict(deriv=rng.choice([0, 1, 2]), cplx=cplx)
     shape = rng.choice([(), (), (), (gdim,), (2, 2)])
     depth = rng.choice([2, 3, 3])
-    a, b = twin_expr(rng, U, shape, depth, profile)
     k = rng.random()
+    if k >= 0.5:
+        a, b, hit = near_twin_expr(rng, U, shape, depth, profile)
+        if hit:
+            ctx.count("near_twins_built")
+    else:
+        a, b = twin_expr(rng, U, shape, depth, profile)
     if k < 0.25:
         # copy through eval(repr()): equal content, different terminal objects
         try:
